@@ -30,7 +30,16 @@ func inputFields(kind string, nt int, h *synth.Hist, G, S int, cfg runCfg) []Sx 
 		histSx(h), T("G", I(G)), T("S", I(S)),
 		T("dist", I(cfg.dist)), T("thr", I(cfg.thr)), T("disk", B(cfg.disk)), T("wrap", B(cfg.wrap)),
 		faultSx(cfg)}
-	return append(fields, cfg.optsSx()...)
+	fields = append(fields, cfg.optsSx()...)
+	if cfg.prior != nil {
+		pc := cfg.prior
+		pf := []Sx{T("dist", I(pc.dist)), T("thr", I(pc.thr)), T("disk", B(pc.disk)), faultSx(*pc), T("clean", B(pc.cleanDir))}
+		if pc.hist != nil {
+			pf = append(pf, histSx(pc.hist))
+		}
+		fields = append(fields, T("prior", pf...))
+	}
+	return fields
 }
 
 func journal(h *synth.Hist, G, S int, cfg runCfg) {
